@@ -7,9 +7,9 @@ package volatility
 
 //@ func BollingerBandsStrategy.Compute
 //@ requires b.BollingerBands.Period >= 1 && consumed(snapshots) == 0
-//@ ensures[C06] "input-close" len(arg(BollingerBands_Compute, 0, 0)) == len(snapshots) && (forall k :: 0 <= k && k < len(snapshots) ==> arg(BollingerBands_Compute, 0, 0)[k] == snapshots[k].Close)
-//@ ensures[C06] "close-above-upper-buys" forall k :: 0 <= k && k < len(res(BollingerBands_Compute, 0, 0)) ==> (snapshots[k + b.BollingerBands.IdlePeriod()].Close > res(BollingerBands_Compute, 0, 0)[k] ==> result[k + b.BollingerBands.IdlePeriod()] == 1)
-//@ ensures[C06] "close-below-lower-sells" forall k :: 0 <= k && k < len(res(BollingerBands_Compute, 0, 0)) ==> (snapshots[k + b.BollingerBands.IdlePeriod()].Close < res(BollingerBands_Compute, 0, 2)[k] && snapshots[k + b.BollingerBands.IdlePeriod()].Close <= res(BollingerBands_Compute, 0, 0)[k] ==> result[k + b.BollingerBands.IdlePeriod()] == 0 - 1)
+//@ guarantees[C06] "input-close" len(arg(BollingerBands_Compute, 0, 0)) == len(snapshots) && (forall k :: 0 <= k && k < len(snapshots) ==> arg(BollingerBands_Compute, 0, 0)[k] == snapshots[k].Close)
+//@ guarantees[C06] "close-above-upper-buys" forall k :: 0 <= k && k < len(res(BollingerBands_Compute, 0, 0)) ==> (snapshots[k + b.BollingerBands.IdlePeriod()].Close > res(BollingerBands_Compute, 0, 0)[k] ==> result[k + b.BollingerBands.IdlePeriod()] == 1)
+//@ guarantees[C06] "close-below-lower-sells" forall k :: 0 <= k && k < len(res(BollingerBands_Compute, 0, 0)) ==> (snapshots[k + b.BollingerBands.IdlePeriod()].Close < res(BollingerBands_Compute, 0, 2)[k] && snapshots[k + b.BollingerBands.IdlePeriod()].Close <= res(BollingerBands_Compute, 0, 0)[k] ==> result[k + b.BollingerBands.IdlePeriod()] == 0 - 1)
 //@ ensures[C05] "len" len(snapshots) >= (b.BollingerBands.IdlePeriod()) ==> len(result) == len(snapshots)
 //@ ensures[C05] "len-short" len(result) >= len(snapshots)
 //@ ensures[C05] "warmup-hold" forall kk :: 0 <= kk && kk < min((b.BollingerBands.IdlePeriod()), len(result)) ==> result[kk] == 0
@@ -20,11 +20,11 @@ package volatility
 
 //@ func SuperTrendStrategy.Compute
 //@ requires consumed(snapshots) == 0
-//@ ensures[C06] "input-high" len(arg(SuperTrend_Compute, 0, 0)) == len(snapshots) && (forall k :: 0 <= k && k < len(snapshots) ==> arg(SuperTrend_Compute, 0, 0)[k] == snapshots[k].High)
-//@ ensures[C06] "input-low" len(arg(SuperTrend_Compute, 0, 1)) == len(snapshots) && (forall k :: 0 <= k && k < len(snapshots) ==> arg(SuperTrend_Compute, 0, 1)[k] == snapshots[k].Low)
-//@ ensures[C06] "input-close" len(arg(SuperTrend_Compute, 0, 2)) == len(snapshots) && (forall k :: 0 <= k && k < len(snapshots) ==> arg(SuperTrend_Compute, 0, 2)[k] == snapshots[k].Close)
-//@ ensures[C06] "close-above-super-trend-buys" forall k :: 0 <= k && k < len(res(SuperTrend_Compute, 0)) ==> (snapshots[k + s.SuperTrend.IdlePeriod()].Close > res(SuperTrend_Compute, 0)[k] ==> result[k + s.SuperTrend.IdlePeriod()] == 1)
-//@ ensures[C06] "close-below-super-trend-sells" forall k :: 0 <= k && k < len(res(SuperTrend_Compute, 0)) ==> (snapshots[k + s.SuperTrend.IdlePeriod()].Close < res(SuperTrend_Compute, 0)[k] ==> result[k + s.SuperTrend.IdlePeriod()] == 0 - 1)
+//@ guarantees[C06] "input-high" len(arg(SuperTrend_Compute, 0, 0)) == len(snapshots) && (forall k :: 0 <= k && k < len(snapshots) ==> arg(SuperTrend_Compute, 0, 0)[k] == snapshots[k].High)
+//@ guarantees[C06] "input-low" len(arg(SuperTrend_Compute, 0, 1)) == len(snapshots) && (forall k :: 0 <= k && k < len(snapshots) ==> arg(SuperTrend_Compute, 0, 1)[k] == snapshots[k].Low)
+//@ guarantees[C06] "input-close" len(arg(SuperTrend_Compute, 0, 2)) == len(snapshots) && (forall k :: 0 <= k && k < len(snapshots) ==> arg(SuperTrend_Compute, 0, 2)[k] == snapshots[k].Close)
+//@ guarantees[C06] "close-above-super-trend-buys" forall k :: 0 <= k && k < len(res(SuperTrend_Compute, 0)) ==> (snapshots[k + s.SuperTrend.IdlePeriod()].Close > res(SuperTrend_Compute, 0)[k] ==> result[k + s.SuperTrend.IdlePeriod()] == 1)
+//@ guarantees[C06] "close-below-super-trend-sells" forall k :: 0 <= k && k < len(res(SuperTrend_Compute, 0)) ==> (snapshots[k + s.SuperTrend.IdlePeriod()].Close < res(SuperTrend_Compute, 0)[k] ==> result[k + s.SuperTrend.IdlePeriod()] == 0 - 1)
 //@ ensures[C05] "len" len(snapshots) >= (s.SuperTrend.IdlePeriod()) ==> len(result) == len(snapshots)
 //@ ensures[C05] "len-short" len(result) >= len(snapshots)
 //@ ensures[C05] "warmup-hold" forall kk :: 0 <= kk && kk < min((s.SuperTrend.IdlePeriod()), len(result)) ==> result[kk] == 0
